@@ -233,7 +233,7 @@ def rule_align(ctx):
             res.instance(inst)
             loc = fn_loc(fn, c["node"].get("ln"))
             if rf != "records" or tf != "targets":
-                res.violate("%s : provenance" % inst, "cannot trace the output's records/targets back to the input's records/targets (records <- %s, targets <- %s): a container was swapped or an unknown idiom is used (fail closed)" % (rf, tf), loc)
+                res.undecided("%s : provenance" % inst, "cannot trace the output's records/targets back to the input's records/targets (records <- %s, targets <- %s): a container was swapped or an unknown idiom is used (fail closed)" % (rf, tf), loc)
                 continue
             if rowops(rops) != rowops(tops):
                 res.violate("%s : rows-records-vs-targets" % inst,
@@ -319,7 +319,7 @@ def rule_filter(ctx):
         pushes = [e for e in tr.events if e.kind == "call" and e.name == "push" and e.loops]
         counts = [e for e in tr.events if e.kind == "assignop" and e.loops and e.op == "+"]
         if len(pushes) < 3:
-            res.violate("%s : pushes" % key, "expected pushes of record, target and weight inside the filter loop, found %d" % len(pushes), fn_loc(fn))
+            res.undecided("%s : pushes" % key, "expected pushes of record, target and weight inside the filter loop, found %d" % len(pushes), fn_loc(fn))
             continue
         first_guard = lambda e: e.guards[0][1] if e.guards else None
         g0 = first_guard(pushes[0])
@@ -416,7 +416,7 @@ def rule_layout(ctx):
             if n.get("k") != "MethodCall" or n["name"] not in RAW_UNCHECKED:
                 continue
             recv = peel_refs(n["recv"])
-            if recv.get("k") != "Field" or recv["name"] not in ("records", "targets"):
+            if recv.get("k") != "Field" or recv["name"] not in ("records", "targets", "weights"):
                 continue
             cont = recv["name"]
             inst = "%s : raw buffer of `%s` via %s" % (key, cont, n["name"])
@@ -522,7 +522,7 @@ def rule_domain(ctx):
             want = {0: "rows", 1: "cols"}.get(ax)
             got = _extent_kind(ext) if ext is not None else None
             if kind is None:
-                res.violate("%s : index-source:#%d" % (key, i), "select #%d along axis %s: %s" % (i, ax, desc), fn_loc(fn, e.node["ln"]))
+                res.undecided("%s : index-source:#%d" % (key, i), "select #%d along axis %s: %s" % (i, ax, desc), fn_loc(fn, e.node["ln"]))
             elif got != want or want is None:
                 res.violate("%s : index-domain:#%d" % (key, i), "select #%d along axis %s takes %s; the axis has extent %s, so an existing %s can be unreachable or a non-existing one be drawn" % (i, ax, desc, {"rows": "nsamples", "cols": "nfeatures"}.get(want, "?"), "sample" if want == "rows" else "feature"), fn_loc(fn, e.node["ln"]))
             elif fn["d"]["name"] == "shuffle" and kind != "permutation":
@@ -541,7 +541,7 @@ def rule_domain(ctx):
         rounders = [e for e in tr.events if e.kind == "call" and e.name in ("ceil", "floor", "round", "trunc") and e.method]
         cuts = [e for e in tr.events if e.kind == "call" and e.name in ("split_at", "split_off")]
         if not rounders or not cuts:
-            res.violate("%s : split-point-form" % key, "expected a rounding of nsamples*ratio feeding the cuts (found %d roundings, %d cuts)" % (len(rounders), len(cuts)), fn_loc(fn))
+            res.undecided("%s : split-point-form" % key, "expected a rounding of nsamples*ratio feeding the cuts (found %d roundings, %d cuts)" % (len(rounders), len(cuts)), fn_loc(fn))
             continue
         bad = None
         for e in rounders:
